@@ -32,7 +32,7 @@ CHECKS = {
     category="proof",
     text="Proved in Coq END TO END for the affine fragment (same premises as C01): through the whole of compile the linear objective (coefficients and constant) equals the source objective at every assignment "
          "(C02_objective_affine), hence source-optimal and linear-optimal points and values coincide for min and max (C02_optimum_affine); and for the arithmetic fragment with abs, min and max (premises as C01_projection_abs) in the full form of the statement "
-         "(C02_objective_abs: no extension of a source point does better than its source value and one attains it; C02_optimum_abs: an optimal point of the compiled model is feasible and optimal for the source with the same value; C02_optimum_abs_converse: an optimal point of the source extends to an optimal point of the compiled model; C02_optimal_value_abs, C02_feasible_together_abs, C02_unbounded_together_abs: the two models have the same optimal value, are feasible together and unbounded together - the three answers a solver can give). PARTIAL beyond them: for an affine objective inside any model the emitted coefficients and "
+         "(C02_objective_abs: no extension of a source point does better than its source value and one attains it; C02_optimum_abs: an optimal point of the compiled model is feasible and optimal for the source with the same value; C02_optimum_abs_converse: an optimal point of the source extends to an optimal point of the compiled model; C02_optimal_value_abs, C02_feasible_together_abs, C02_unbounded_together_abs: the two models have the same optimal value, are feasible together and unbounded together - the three answers a solver can give; C02_answers_affine: the same on the affine fragment). PARTIAL beyond them: for an affine objective inside any model the emitted coefficients and "
          "offset equal the source objective; one-sided and exact arm patterns relax in the right direction and are tight; the full statement (C02_objective_statement) is stated, not proved. " + CORE_TIE,
     design_ref="DESIGN.md section 4 / C02",
     technique="Coq proof (partial) + per-run structural correspondence of objective map/offset/direction + best-extension objective oracle on the implementation",
